@@ -1,2 +1,14 @@
 import Plonk.Props.C06
 #print axioms Plonk.Props.C06.placeholder_consts
+#print axioms Plonk.Props.C06.blinding_mask_form
+#print axioms Plonk.Props.C06.wire_blinding
+#print axioms Plonk.Props.C06.perm_blinding
+#print axioms Plonk.Props.C06.opening_mask
+#print axioms Plonk.Props.C06.split_quotient_mask_form
+#print axioms Plonk.Props.C06.rng_draws
+#print axioms Plonk.Props.C06.rng_prefix
+#print axioms Plonk.Props.C06.draw_partition
+#print axioms Plonk.Props.C06.draw_shortage
+#print axioms Plonk.Props.C06.proof_openings_masked
+#print axioms Plonk.Props.C06.proof_commitments_blinded
+#print axioms Plonk.Props.C06.mask_def
